@@ -196,7 +196,9 @@ def build() -> dict:
         },
         "engines": [{"name": "lvf", "path": "/verif/lvf", "serves_properties": sorted(CHECKS),
                      "kind_free_text": "TLA+ specifications in /verif/spec checked by TLC (exhaustive, simulation) and bound "
-                                       "to the real lerax code by trace validation (code->spec) and behaviour replay (spec->code)"}],
+                                       "to the real lerax code by trace validation (code->spec) and behaviour replay / state and edge cover "
+                                       "(spec->code); integer-only fragments (spec/apalache) additionally discharged as unbounded "
+                                       "inductive invariants by Apalache 0.58"}],
         "checks": checks,
         "not_applicable": na,
         "notes": "All checks: cwd=/verif; exit 0 held / 1 VIOLATION / 2 machinery failure. VERIF_SEED and VERIF_TIER honoured. "
